@@ -172,6 +172,8 @@ impl<V: Clone> CacheRing<V> {
         if let Some(&slot_idx) = index.get(&key_hash) {
             drop(index);
 
+            #[cfg(neumann_verif)]
+            crate::verif::yield_point("cache_ring.get.after_index", key);
             let mut slots = self.slots.write();
             if let Some(ref mut entry) = slots[slot_idx] {
                 if entry.key == key {
